@@ -12,7 +12,10 @@
 // child that shows a file the program is writing), and the failure family
 // (a failure at every byte offset of standard output, in default, CSV and
 // TSV output mode, with a plain writer and *bufio.Writers of 3, 16 and 4096
-// bytes as Config.Output, plus the never-failing control).
+// bytes as Config.Output, plus the never-failing control), and the newline
+// family (Config.NewlineOutput raw / crlf / smart x payloads with newlines in
+// them, to standard output, files, commands and /dev/stderr: the bytes that
+// arrive are compared with the model's CrlfOf / Out).
 package c13
 
 import (
